@@ -315,15 +315,29 @@ FbAccept(e) ==
 (* result is not [k]P.                                                     *)
 (* C16-lodah-identity: eb_mul_lodah has no case for P = identity and       *)
 (* returns a finite point.                                                 *)
-(* C16-simjoint-equal-opposite: eb_mul_sim_joint normalises its table      *)
-(* {P+Q, P-Q} with eb_norm_sim, which turns the identity (z = 0, tagged    *)
-(* projective) into the finite pair (0,0): for Q = P or Q = -P the result  *)
-(* is not [k]P + [m]Q.                                                     *)
+(* C16-sim-table-infinity: eb_mul_sim_joint / eb_mul_sim_trick normalise   *)
+(* their tables ({P+Q, P-Q}; iP + jQ for 0 <= i, j < 2^(w/2)) with         *)
+(* eb_norm_sim, which turns the identity (z = 0, tagged projective) into   *)
+(* the finite pair (0,0): when a table entry is the identity (joint: Q = P *)
+(* or Q = -P) the result is not [k]P + [m]Q.                               *)
+(* C16-simtrick-short-scalar: eb_mul_sim_trick recodes with                *)
+(* bn_rec_win(w = RLC_WIDTH/2), whose mixed int/size_t arithmetic wraps    *)
+(* for scalars shorter than w bits: the window loop runs past the buffer   *)
+(* (SIGSEGV).                                                              *)
 (***************************************************************************)
 IsOrderTwo(X) == ~X.inf /\ X.x = <<>>
 LongScalarOps == (EMulOps \cup ESimOps) \ {"eb_mul_basic", "eb_mul_halve"}
 LongScalar(e) == \/ BBits(BNorm(e.k.d)) > BBits(BNorm(e.n.d))
                  \/ (e.op \in ESimOps /\ BBits(BNorm(e.m2.d)) > BBits(BNorm(e.n.d)))
+SimTableInf(e) ==
+    LET c == Crv(e)
+        P == IF KNeg(e.k) THEN ENeg(EAbs(e, e.P)) ELSE EAbs(e, e.P)      \* the tables are built from sign(k) P, sign(m) Q
+        Q == IF KNeg(e.m2) THEN ENeg(EAbs(e, e.Q)) ELSE EAbs(e, e.Q)
+        M == Pow2(e.wd \div 2) - 1
+    IN  IF e.op = "eb_mul_sim_joint" THEN EEq(P, Q) \/ EEq(P, ENeg(Q))
+        ELSE \E i \in 0..M, j \in 0..M :
+                /\ i + j >= 1
+                /\ EAdd(EMulNat(BFromNat(i), P, c), EMulNat(BFromNat(j), Q, c), c).inf
 RECURSIVE XorDigits(_, _, _)
 XorDigits(raw, w, i) == IF i * w >= Len(raw) THEN <<>>
                         ELSE GAdd(BNorm(SubSeq(raw, i * w + 1, (i + 1) * w)), XorDigits(raw, w, i + 1))
@@ -367,8 +381,8 @@ FbKnownKey(e) ==
             -> "C16-cmp-zero-infinity"
       [] e.op \in LongScalarOps /\ CurveOk(e) /\ LongScalar(e)
                 /\ RepOk(e, e.P, SysOf(e)) /\ OnC(e, e.P)
-                /\ e.crash = 0
-                /\ (IF e.err # 0 THEN e.code = 1 ELSE RanClean(e) /\ AnyRep(e, e.R))
+                /\ (IF e.crash # 0 THEN e.op = "eb_mul_sim_joint"        \* bn_rec_jsf overruns its buffer
+                    ELSE IF e.err # 0 THEN e.code = 1 ELSE RanClean(e) /\ AnyRep(e, e.R))
             -> "C16-mul-long-scalar"
       [] e.op \in {"eb_mul_lodah", "eb_mul_rwnaf", "eb_mul_halve"} /\ CurveOk(e)
                 /\ (e.op = "eb_mul_rwnaf" => e.kbl = 1)
@@ -379,10 +393,16 @@ FbKnownKey(e) ==
       [] e.op = "eb_mul_lodah" /\ CurveOk(e) /\ RepOk(e, e.P, 2) /\ EAbs(e, e.P).inf /\ BNorm(e.k.d) # <<>>
                 /\ RanClean(e) /\ AnyRep(e, e.R) /\ ~EAbs(e, e.R).inf
             -> "C16-lodah-identity"
-      [] e.op = "eb_mul_sim_joint" /\ CurveOk(e) /\ RepOk(e, e.P, 2) /\ RepOk(e, e.Q, 2) /\ OnC(e, e.P) /\ OnC(e, e.Q)
+      [] e.op = "eb_mul_sim_trick" /\ CurveOk(e) /\ RepOk(e, e.P, 2) /\ RepOk(e, e.Q, 2) /\ OnC(e, e.P) /\ OnC(e, e.Q)
                 /\ ~EAbs(e, e.P).inf /\ ~EAbs(e, e.Q).inf /\ BNorm(e.k.d) # <<>> /\ BNorm(e.m2.d) # <<>>
-                /\ (EEq(EAbs(e, e.P), EAbs(e, e.Q)) \/ EEq(EAbs(e, e.P), ENeg(EAbs(e, e.Q))))
+                /\ (BBits(BNorm(e.k.d)) < e.wd \div 2 \/ BBits(BNorm(e.m2.d)) < e.wd \div 2)
+                /\ (e.crash # 0 \/ (e.err # 0 /\ e.code = 1))
+            -> "C16-simtrick-short-scalar"
+      [] e.op \in {"eb_mul_sim_joint", "eb_mul_sim_trick"} /\ CurveOk(e)
+                /\ RepOk(e, e.P, 2) /\ RepOk(e, e.Q, 2) /\ OnC(e, e.P) /\ OnC(e, e.Q)
+                /\ ~EAbs(e, e.P).inf /\ ~EAbs(e, e.Q).inf /\ BNorm(e.k.d) # <<>> /\ BNorm(e.m2.d) # <<>>
+                /\ SimTableInf(e)
                 /\ e.crash = 0 /\ (e.err # 0 \/ (RanClean(e) /\ AnyRep(e, e.R)))
-            -> "C16-simjoint-equal-opposite"
+            -> "C16-sim-table-infinity"
       [] OTHER -> ""
 =============================================================================
